@@ -25,7 +25,9 @@ VERIF = os.path.dirname(os.path.dirname(os.path.dirname(os.path.abspath(__file__
 REPO = os.environ.get("VERIF_REPO", "/repo")
 COQ = os.path.join(VERIF, "coq")
 CASES = os.path.join(COQ, "Cases")
-EVIDENCE = os.path.join(VERIF, "evidence")
+# evidence/ is only ever written by a full run against /repo itself; runs against a private copy
+# (VERIF_REPO, used for mutation testing) and --replay runs write to a scratch directory instead
+EVIDENCE = os.path.join(VERIF, "evidence") if os.path.abspath(REPO) == "/repo" else os.path.join(VERIF, "_build", "evidence-scratch")
 REPLAYS = os.path.join(VERIF, "replays")
 KNOWN = os.path.join(VERIF, "KNOWN_FINDINGS.json")
 NCPU = min(16, os.cpu_count() or 4)
@@ -176,8 +178,11 @@ def finish(ctx):
     """Apply the verdict logic, write evidence and replays, return the exit code."""
     known = load_known()
     known_keys = {(k["property"], k["key"]): k for k in known.get("findings", [])}
+    evdir = EVIDENCE
+    if ctx.coverage.get("replay_of"):
+        evdir = os.path.join(VERIF, "_build", "evidence-scratch")
     os.makedirs(REPLAYS, exist_ok=True)
-    os.makedirs(EVIDENCE, exist_ok=True)
+    os.makedirs(evdir, exist_ok=True)
     broken = [o for o in ctx.obligations if not o["ok"]]
     lines = []
     nviol = 0
@@ -241,7 +246,7 @@ def finish(ctx):
         "wall_s": round(time.time() - ctx.t0, 2),
         "violations": nviol,
     }
-    with open(os.path.join(EVIDENCE, ctx.prop_id + ".json"), "w") as f:
+    with open(os.path.join(evdir, ctx.prop_id + ".json"), "w") as f:
         json.dump(ev, f, indent=1, default=str)
     for ln in lines:
         print(ln, flush=True)
